@@ -8,15 +8,16 @@ META = {
     "level": "model_checking",
     "engine": "afc",
     "technique": "TLA+ spec ArcStr (one action per atomic access of ArcStr::clone/drop: fetch_add, fetch_sub, fence, dealloc) model-checked with TLC; edge-covering schedules of its state graph replayed on real heap-backed aranya_policy_text::Text under the yield-point scheduler with a tracking allocator as memory-safety oracle (spec->impl conformance)",
-    "text": "TLC checks the reference-counted string for every interleaving of threads that each start with one handle and clone, read and drop handles until they own none: no access after the dealloc, at most one dealloc, the count equals the number of live handles, no dealloc while a handle is alive, exactly one dealloc at the end; the spec mutant 'free when fetch_sub returned 2' must be rejected. Every transition of the state graph is executed on real Text values sharing one heap allocation: yield points sit before fetch_add, fetch_sub, the fence and the dealloc; reads go through as_str(). The harness allocator poisons and quarantines the freed block. VIOLATION on: a yield point or read touching the freed block / text that does not read back, a second free, the block still allocated after every handle is dropped.",
-    "note": "Bounds: quick 3 threads x (<=1 clone, <=1 read) exhaustive + 2 threads; thorough 3 threads x <=2 clones in TLC, schedules from 3 x (1,1). Memory orderings (Relaxed/Release/Acquire fence) are outside the model: sequentially consistent interleavings only (DESIGN §9). The valgrind run planned in DESIGN is not done (the scheduler switches stacks in user space). Trusts the allocator's quarantine.",
+    "text": "TLC checks the reference-counted string for every interleaving of threads that clone, read and drop handles until they own none - owner threads start with one handle, borrower threads clone and read through a shared reference to an owner's handle (so the same, possibly unique, handle is cloned concurrently): no access after the dealloc, at most one dealloc, the count equals the number of live handles, no dealloc while a handle is alive, exactly one dealloc at the end; the spec mutant 'free when fetch_sub returned 2' must be rejected. Every transition of the state graph is executed on real Text values sharing one heap allocation: yield points sit before fetch_add, fetch_sub, the fence and the dealloc; reads go through as_str(). The harness allocator poisons and quarantines the freed block. VIOLATION on: a yield point or read touching the freed block / text that does not read back, a second free, the block still allocated after every handle is dropped.",
+    "note": "Bounds: quick 3 owner threads x (<=1 clone, <=1 read), 1 owner + 2 borrowers x (<=1 clone, <=1 read), and 2 threads, all exhaustive; thorough 3 threads x <=2 clones in TLC, schedules from 3 x (1,1). Memory orderings (Relaxed/Release/Acquire fence) are outside the model: sequentially consistent interleavings only (DESIGN §9). The valgrind run planned in DESIGN is not done (the scheduler switches stacks in user space). Trusts the allocator's quarantine.",
 }
 
 ACTIONS = ["op", "inc", "rd", "dec", "fence", "free"]
 
 
 def project(a, args, s):
-    return {"a": a, "t": args[0], "count": s["count"], "freed": s["freed"], "pc": s["pc"], "held": s["held"]}
+    return {"a": a, "t": args[0], "count": s["count"], "freed": s["freed"], "pc": s["pc"], "held": s["held"],
+            "bor": s["borrowing"]}
 
 
 def run(ctx):
@@ -32,11 +33,12 @@ def run(ctx):
         ctx.require_actions(r, ACTIONS)
     graphs = {}
     allbeh = []
-    for cfg, cap in (("MC_ArcStr_g.cfg", None), ("MC_ArcStr.cfg", 5000)):
+    for cfg, cap in (("MC_ArcStr_g.cfg", None), ("MC_ArcStr_b.cfg", 5000), ("MC_ArcStr.cfg", 4000)):
         info, steps = afc_util.schedules(ctx, "ArcStr", cfg, project)
         afc_util.require_graph_actions(info, ACTIONS)
         c = afc_util.cfg_constants(cfg)
-        beh = [{"threads": len(info["init"]["pc"]), "max_clones": int(c["MaxClones"]), "max_reads": int(c["MaxReads"]),
+        owners = [int(x) for x in c["Owners"].strip("{}").split(",") if x.strip()]
+        beh = [{"threads": len(info["init"]["pc"]), "owners": owners, "max_clones": int(c["MaxClones"]), "max_reads": int(c["MaxReads"]),
                 "steps": st} for st in steps]
         if cap and len(beh) > cap and not ctx.thorough:
             beh = verif.sample(ctx.rng, beh, cap)
